@@ -329,8 +329,11 @@ def queries(world):
         n = len(next(iter(nodes[s]['cols'].values()))['v'])
         vs = views_for(nodes[t]['shape'], qs.get('views') == 'full') if qs.get('views') != 'none' else [None]
         for sel in qs['sels']:
-            for bits in range(2 ** n):
-                rows = [i for i in range(n) if bits >> i & 1]
+            if 'rowsets' in qs:        # explicit selected-row sets (tables too long for all 2**n subsets)
+                rowsets = qs['rowsets'][s]
+            else:
+                rowsets = [[i for i in range(n) if bits >> i & 1] for bits in range(2 ** n)]
+            for rows in rowsets:
                 for v in vs:
                     out.append(dict(t=t, s=s, rows=rows, sel=sel, view=v))
     return out
@@ -433,6 +436,29 @@ def pair_world(fam, shape, cfgs, lt, rt, pal, reg='fwd', lshape=None, rshape=Non
              edges=[['L', sorted(lcols), 'R', sorted(rcols), reg]],
              queries=qs or dict(pairs=[['L', 'R'], ['R', 'L']], sels=['flag'], views='full'))
     return w
+
+
+def fam_large(spec, pal):
+    """Longer key columns with many duplicates: numpy's membership tests switch algorithm with the sizes of
+    their arguments, so the by-value clause is also checked beyond the tiny tables (a few explicit row sets
+    instead of all subsets)."""
+    _, kind = spec
+    nl, nr = 40, 30
+    if kind == 'float':
+        vals, dt = [0.5 * k + 0.25 for k in range(nr)], 'float64'
+    elif kind == 'str':
+        vals, dt = ['k%02d' % k for k in range(nr)], 'U3'
+    else:
+        vals, dt = [1000 * k + 7 for k in range(nr)], 'int64'
+    lkeys = [vals[i % 20] for i in range(nl)]            # every key twice; keys 20..29 never occur on the left
+    rkeys = list(vals)
+    rowsets = dict(R=[list(range(nr)), list(range(18)), list(range(0, nr, 2)), [5], list(range(20, 30)), []],
+                   L=[list(range(nl)), list(range(0, nl, 3)), [0, 20], list(range(10, 25)), []])
+    yield dict(family='large',
+               nodes=dict(L=dict(shape=[nl], cols=dict(k0=dict(v=lkeys, dt=dt, kind=kind))),
+                          R=dict(shape=[nr], cols=dict(k0=dict(v=rkeys, dt=dt, kind=kind)))),
+               edges=[['L', ['k0'], 'R', ['k0'], 'fwd']],
+               queries=dict(pairs=[['L', 'R'], ['R', 'L']], sels=['flag'], views='none', rowsets=rowsets))
 
 
 def fam_tables(spec, pal):
@@ -566,7 +592,7 @@ def fam_cycle(spec, pal):
                 yield dict(family='cycle', nodes=nd, edges=ed, queries=qs)
 
 
-FAMS = dict(tables=fam_tables, dtypes=fam_dtypes, reg=fam_reg, shape2d=fam_shape2d, chain=fam_chain,
+FAMS = dict(large=fam_large, tables=fam_tables, dtypes=fam_dtypes, reg=fam_reg, shape2d=fam_shape2d, chain=fam_chain,
             tree=fam_tree, cycle=fam_cycle)
 
 ALLCFG = ['i64', 'i64/32', 'i32/64', 'f64', 'f64/32', 'f64-0', 'str', 'str/U5']
@@ -583,6 +609,8 @@ def families(tier):
     for shape in ('n-n', '1-n', 'n-1'):
         S.append(('tables', shape, 'i64', 2, 3, 2))
     S.append(('tables', 'n-n', 'str', 2, 2, 2))
+    for kind in ('float', 'str', 'int'):
+        S.append(('large', kind))
     # joins on three key columns (the combination of per-column codes has to stay injective)
     S.append(('tables', '3-3', 'i64', 2, 2, 2))
     if t:
